@@ -92,7 +92,7 @@ PROPS = {
         ],
     },
     'C08': {
-        'v_units': ['trap'],
+        'v_units': ['trap', 'pipeset'],
         'k_units': [],
         'level': 'proof',
         'explanation': (
@@ -103,9 +103,17 @@ PROPS = {
             '(unit trap, shared with C11). Isolation of '
             'variables, functions, aliases, options, working directory, umask and descriptors under all interleavings is a '
             'property of fork/clone of Env and of the simulated process table: no function-level contract reaches it, and '
-            'it is NOT decided by this check.'),
+            'it is NOT decided by this check.'
+            ' Unit pipeset (Verus) decides one more clause, "... or open files", for multi-command pipelines: PipeSet::shift '
+            '(yash-semantics/src/command/pipeline.rs), which opens and closes the pipes in the PARENT shell, keeps the invariant '
+            '"what is open = what was open before the pipeline, untouched, plus exactly the descriptors the pipe set still holds" '
+            'and holds nothing after the last shift, so no descriptor is left behind in the parent; PipeSet::move_to_stdin_stdout '
+            '(in the child) makes standard input the previous pipe and standard output the next one, closes every other pipe '
+            'descriptor and touches nothing else, including the corner cases where a pipe end already IS descriptor 0 or 1. '
+            'The descriptor table is an assumed model of the Pipe / Close / Dup traits.'),
         'trusted_base': ['Verus 0.2026.09.13 + Z3', '/verif/tools/vextract.py'],
         'assumptions': [
+            'unit pipeset: the system traits Pipe / Close / Dup are replaced by one synchronous model trait over a ghost descriptor table (fd -> open file description); pipe() returns two descriptors that were not open; close() removes, dup/dup2 add; Env reduced to the system field; a failing close (ignored by the code) is excluded by hypothesis in the no-leak clause; assert_ne! must not fail (obligation)',
             'same as C11 (model SignalSystem, stripped async, hash_map::Entry contract, derived PartialEq/Ord)',
             'TrapSet::enter_subshell is under contract (see C11): its two for loops are checked as while loops over an assumed model of the map iterator',
         ],
